@@ -41,6 +41,7 @@ type Opts struct {
 	JSONDash         bool // json:"-" tags even without TagVariety (C15: the field is still filled)
 	SmallKeyMaps     bool // directed: a struct with a map keyed by an enum (few possible keys)
 	Diamonds         bool // directed diamond in the import graph (root -> a, root -> b, a -> b)
+	SameNameAsRoot   bool // an imported package may be named like the analysed package (models imports legacy/models)
 	SameNamePromoted bool // a flattened embedded struct may have a field with the Go name of an outer field, under another JSON key
 	EmbedNamed       bool // structs may embed an exported named non-struct type (a regular field for encoding/json)
 	ShortModule      bool // the analysed package may have an import path of one or two elements (module at the root)
